@@ -34,7 +34,7 @@ node_assume = [
     "node state: arbitrary per-core capacity pieces in [0,mp] and usage <= capacity, memory capacity/usage in [0,2^40], optional 2-node NUMA split with NUMA memory; accepted by the plugin's own NodeResourceInfo.Validate, which is executed symbolically (V0)",
     "V1 (feasibility properties): V0 and memory usage <= capacity, sum of NUMA memory capacity <= memory capacity, sum of NUMA usage <= memory usage",
     "CPU request is concrete per harness instance (stated grid of requests), memory request symbolic in [0,2^40], share base and max-share concrete per instance",
-    "map iteration (NUMA nodes, cores) is deterministic in the interpreter: keys in sorted order; Go's random order is not explored",
+    "map iteration is deterministic in the interpreter (sorted keys); in the thorough tier the two map ranges of schedule.GetCPUPlans (cpu->NUMA map, per-NUMA cpu maps) are additionally explored in EVERY order (symbolic permutation, one path per order) on the 2-NUMA-node shapes",
 ]
 sched_bounds_q = "quick: 2-3 cores (pieces <= 2*share base per core), NUMA none or 1|1, requests {0.25,0.3,0.5,1.0,1.2,...} cores as listed in the harness arguments, share base 100 (C06: also 1,3,10), max-share -1/1/2, instance count <= 3"
 sched_bounds_t = "thorough: up to 4 cores, NUMA 1|1, 2|1, 2|2, more requests incl. 2.0 and fractional with max-share, count <= 2-3 on NUMA"
@@ -58,6 +58,8 @@ cfg["C04"] = {
     ],
     "bounds": sched_bounds_q + "; " + sched_bounds_t, "outside": sched_out, "assumptions": node_assume + [plugin_stubs],
 }
+GCP = "github.com/projecteru2/core/resource/plugins/cpumem/schedule.GetCPUPlans"
+cfg["C04"]["runs"].append({"dir": SCHED, "permute_ranges": [GCP], "quick": [], "thorough": P("VerifPlans", "c=2,numa=1,r=1000", "c=2,numa=1,r=1200"), "samples": 1})
 cfg["C05"] = {
     "title": "CPU-bound instances receive exactly the CPU amount requested", "design_ref": "DESIGN.md §4 C05",
     "runs": [
@@ -221,6 +223,9 @@ cfg["C36"] = {
     "outside": "real gRPC transport and back-off timing: backoff.Retry is modelled by its contract (repeat until nil or the policy says Stop; no sleeping), ExponentialBackOff by a constant delay; cancellation observed only through the context.Canceled error (ctx.Done() is not modelled); NewUnaryRetry",
     "assumptions": [common_stubs + "; grpc.ClientStream / Streamer: in-harness models; sync.RWMutex: real SSA over sequential atomics"],
 }
+
+cfg["C33"]["runs"].append({"dir": CPUMEM, "permute_ranges": [GCP], "quick": [], "thorough": P("VerifRealloc", "c=2,numa=1", "c=3,numa=1,or=1000"), "samples": 1})
+cfg["C06"]["runs"].append({"dir": SCHED, "permute_ranges": [GCP], "quick": [], "thorough": P("VerifPlans", "c=2,numa=1,r=1000,v=0"), "samples": 1})
 
 meta = {
     "C01": "Every feasible path of strategy.Deploy and the five real strategy functions (real container/heap and sort SSA) is executed with capacities, counts, need, limit, usage and rate symbolic; on each path z3 proves the plan assertions (only candidates, 0<=d<=capacity, exact totals, EACH/FILL selection sizes, AUTO node limit) for all values inside the bounds, or returns a model that is replayed natively. Bounded by node count and, for AUTO/GLOBAL, by need.",
